@@ -33,8 +33,9 @@ def is_bounded_pause(a: ast.Await) -> bool:
     return False
 
 
-@ob('C04.1', 'EFFECT', 'on the in-handler (inline) branch of `await event` the only awaits are process_event(...) and asyncio.sleep(0); waiting on the completion signal, '
-    'queue join/get or lock acquisition appear only on the other branch (the awaiting handler holds the processing lock: a blocking wait there is a deadlock)')
+@ob('C04.1', 'EFFECT', 'on the in-handler (inline) branch of `await event` the only awaits are process_event(...), asyncio.sleep(0), a pause bounded by a constant of at most 50 ms, and '
+    'nested entries of the re-entrant lock the handler already owns; unbounded waits on the completion signal, queue join/get or lock acquisition appear only on the other branch '
+    '(the awaiting handler holds the processing lock: a blocking wait there is a deadlock)')
 def c04_1(c: Ctx) -> None:
     u = await_coro(c)
     br = inline_branch(c, u)
